@@ -1,7 +1,10 @@
 (** * Model of [predict/glms/glm.rs] and of the deviance tables of [predict/glms/families.rs]
     (the repaired code: ridge term [alpha * coef[i]], intercept unpenalised in gradient and
     information; Gaussian deviance = residual sum of squares; penalised deviance = deviance +
-    [alpha * |coef[1..]|^2]).
+    [alpha * |coef[1..]|^2]; with prior weights the deviance of a fit is [sum_i w_i d(y_i, mu_i)],
+    the unit deviance [d] being [ExponentialFamily::deviance] of the single observation
+    ([GLM::weighted_deviance], [GLM::weighted_penalized_deviance]); unit weights take the family's
+    deviance of the whole sample, evaluated as before).
 
     The element-wise family tables ([variance1], [inv_link1], [d_inv_link1], [has_dispersion]) are
     regenerated from the source (Generated/glm_families.v, Tie A).
@@ -66,6 +69,29 @@ Section GLM.
   (** [deviance + alpha * dot(&coef[1..], &coef[1..])]; [&coef[1..]] panics on an empty slice *)
   Definition penalized_deviance (f : family) (y mu : list T) (alpha : T) (coef : list T) : option T :=
     let* d := deviance f y mu in
+    match coef with
+    | [] => None
+    | _ :: c => Some (add O d (mul O alpha (dot_raw O c c)))
+    end.
+
+  (** ** deviance of a fit with prior weights ([GLM::weighted_deviance])
+      the unit deviance as the code obtains it: [self.family.deviance(&y[i..i + 1], &mu[i..i + 1])],
+      the family's deviance of ONE observation (two slices of length 1: the length assertion holds) *)
+  Definition unit_dev (f : family) (yi mi : T) : T :=
+    match deviance f [yi] [mi] with Some d => d | None => z end.
+  (** [weights.iter().all(|&w| w == 1.)] *)
+  Definition unit_weights (w : list T) : bool := forallb (fun wi => eqb O wi o1) w.
+  (** unit weights: [self.family.deviance(y, mu)], the same call as without weights;
+      otherwise [(0..y.len()).map(|i| weights[i] * unit deviance of observation i).sum()]
+      ([weights[i]], [&mu[i..i + 1]] panic when out of bounds) *)
+  Definition weighted_deviance (f : family) (y mu w : list T) : option T :=
+    if unit_weights w then deviance f y mu
+    else if (length y <=? length mu) && (length y <=? length w) then
+      Some (isum (map (fun i => mul O (nth i w z) (unit_dev f (nth i y z) (nth i mu z))) (seq 0 (length y))))
+    else None.
+  (** [weighted_deviance + alpha * dot(&coef[1..], &coef[1..])]; [&coef[1..]] panics on an empty slice *)
+  Definition weighted_penalized_deviance (f : family) (y mu w : list T) (alpha : T) (coef : list T) : option T :=
+    let* d := weighted_deviance f y mu w in
     match coef with
     | [] => None
     | _ :: c => Some (add O d (mul O alpha (dot_raw O c c)))
@@ -158,7 +184,7 @@ Section GLM.
       let* (a, b) := newton_system coef q in
       let* s := solve a b in
       let* coef' := vbin (sub O) coef s in
-      let* pd := penalized_deviance f y (q_mu q) alpha coef' in
+      let* pd := weighted_penalized_deviance f y (q_mu q) w alpha coef' in
       Some (coef', pd, has_converged pd pdev tol, q).
 
     (** [fuel] = iterations still allowed after this one ([max_iter - 1] at the start; the body runs at
@@ -192,7 +218,7 @@ Section GLM.
                            | Some (c, d) => (c, Some d)
                            end in
     let* (conv, coef, q) := fit_loop f alpha tol x y n p wts off (max_iter - 1) coef0 pdev0 in
-    let* dev := deviance f y (q_mu q) in
+    let* dev := weighted_deviance f y (q_mu q) wts in
     let* info := compute_ddbeta x (q_dmu q) (q_var q) wts in
     Some {| f_ok := conv; f_coef := coef; f_dev := dev; f_info := info;
             f_n := Z.max 0 (truncZ O (f1 O Round (sum O wts))); f_p := p |}.
